@@ -7,6 +7,7 @@ OBLIGATIONS = [
 OBLIGATIONS.append(dict(id='C06.limit.parse', engine='V', verus_fn='Parser::parse_limit', label='C06.limit.parse', complete=True, bound=None, units=[], harness='verus:Parser::parse_limit', tier='quick',
     desc='for every token vector: no LIMIT token -> Ok(0) and the cursor is unchanged; LIMIT followed by a word -> the u32 that word denotes, or Err when it denotes none; LIMIT followed by anything else -> Err'))
 OBLIGATIONS.append(ob('C06.found.accounting', 'verif_frag::rowprologue::c06_found_accounting', 'check_file prologue (verbatim on a shim world), all inputs: an entry is counted in `found` (the quantity the LIMIT gates compare with) exactly once when there is no WHERE or its WHERE condition holds, and not at all when it is rejected; the condition is evaluated once', units=['rowprologue']))
-CANARIES = [dict(harness='verif_frag::rowprologue::canary_rowprologue_must_fail', units=['rowprologue']), dict(harness='verif_frag::gate_exit_dir::canary_must_fail', units=['gate_exit_dir']), dict(harness='verif_frag::gate_exit_archive::canary_must_fail', units=['gate_exit_archive'])]
+OBLIGATIONS.append(ob('C06.limit.assembled', 'verif_frag::parsetop::c10_clause_sequence', 'Parser::parse after the token loop (verbatim, shim Parser): the limit of the Query is the u32 parse_limit returned for every value; 0 (absent / `limit 0`) stays unlimited unless no select-list column needs a file, in which case exactly one row is produced (same harness as C10.clause.sequence)', units=['parsetop']))
+CANARIES = [dict(harness='verif_frag::parsetop::canary_parsetop_must_fail', units=['parsetop']), dict(harness='verif_frag::rowprologue::canary_rowprologue_must_fail', units=['rowprologue']), dict(harness='verif_frag::gate_exit_dir::canary_must_fail', units=['gate_exit_dir']), dict(harness='verif_frag::gate_exit_archive::canary_must_fail', units=['gate_exit_archive'])]
 ASSUMPTIONS = ['self.found counts accepted rows (check_file, unverified)', 'is_buffered() is true exactly for ordered or aggregated queries (unverified)']
 NOT_COVERED = ['TopN::insert for arbitrary histories (BTreeMap: beyond CBMC and Verus here)', 'found accounting in check_file', 'implicit limit 1']
